@@ -4,7 +4,8 @@ RULE = ("for every contract and every from-version below/at/above each bound the
         "constant and raw storage methods are deployed on an n-member chain (n in 1..7), a seeded synthetic pre-upgrade storage in the "
         "layout documented for that version is written (bare 20-byte balance accounts, bare 32/57-byte container keys, legacy netmap node "
         "structures in rings of stored snapshot count 1/3/7/10/11/12/20/255 (non-empty lists above ring index 9, current index below and above 9) "
-        "and address keys, committee-less NNS TLDs, notary flags with ballots at gaps 0/1/19/20/21/22/500 blocks), then `update` "
+        "and address keys, non-notary Alphabet contracts holding 0/1/3/0.99999999/50.00000001/1000/1234567.89012345 GAS with 0-3 storage nodes and "
+        "an Inner Ring of 0/1/4/7 keys, committee-less NNS TLDs, notary flags with ballots at gaps 0/1/19/20/21/22/500 blocks), then `update` "
         "with the executable compiled from the repository under test is invoked by strangers, single members, the 2n/3+1 account, "
         "majorities of subsets, one-short and one-over multi-signatures and the required n/2+1 account, with caller data that tries to "
         "spoof the version. Every 4th case leaves the quantifier (malformed values, colliding keys, mixed layouts): compared with the model only. "
@@ -18,7 +19,9 @@ NOTE = ("Theorems are about NeoFS/Model/Upgrade*.lean, a branch-by-branch model 
         "Quot.sound only; the model-to-code tie is differential (old executables = current sources with a patched version constant; whole raw "
         "storage, `version` and the read API compared after every operation); NeoVM runtime facts of DESIGN.md section 4 (transaction atomicity, "
         "Find snapshot, multisig-hash injectivity), std.Serialize/Deserialize as modelled in UpgradeStore.lean, ripemd160 taken from the stored key; "
-        "the Go harness and its monitor. Not modelled: the GAS distribution of a non-notary Alphabet contract; NNS/Netmap read API beyond the getters listed in the report.")
+        "the Go harness and its monitor. Native GAS transfer and Notary onNEP17Payment are modelled as far as Alphabet's switchToNotary uses them "
+        "(Ledger in Model/Upgrade.lean; standard accounts represented by their keys, script hashes assumed distinct). Not modelled: NNS/Netmap read API "
+        "beyond the getters listed in the report.")
 TECH = "Lean 4 proofs over a hand-written byte-level storage model + differential correspondence check against the compiled contracts"
 CLAIMS = {
     "C16": dict(text="Proved for every contract, state, signer set, caller data and height: `update` HALTs only with the committee-majority "
@@ -32,9 +35,13 @@ CLAIMS = {
                      "non-notary contract with a ballot younger than 21 blocks refuses the upgrade. Netmap node lists from before 0.16 are converted node "
                      "for node with NO proviso: an empty list stays the empty array (F20, repaired by f42319b; its witness is replayed on every run). "
                      "One statement is false of the current code and carries a kernel-checked negation witness (F21 Container 57-byte estimation key, "
-                     "known finding). Partial: NNS "
-                     "balance/token accounting of dropped TLD owners, Alphabet GAS distribution (not modelled). Correspondence run (incl. the two "
-                     "recorded dumps) + an independent monitor on the contracts' own read API.",
+                     "known finding). No partial theorem is left: the NNS hand-over of TLDs is proved with its accounting (every balance record drops by exactly "
+                     "the number of TLDs held, exactly their account-token entries disappear, totalSupply untouched), and the upgrade of a non-notary "
+                     "Alphabet contract is modelled and proved in full: storage (name, index, threshold, Netmap address untouched; proxyScriptHash = the "
+                     "argument or the NNS record), GAS conservation and the exact split of b*3/4 between Proxy, node accounts and Notary deposits "
+                     "(capped at 20 GAS) for every account, nothing moves on FAULT / pending vote / notarized contracts. Correspondence run (incl. the "
+                     "two recorded dumps and Alphabet worlds with native Notary, Proxy, Netmap, NNS and GAS 0..1.2M) + an independent monitor on the "
+                     "contracts' own read API, GAS balances and Notary deposits.",
                 note=NOTE, technique=TECH),
 }
 
